@@ -1,5 +1,8 @@
 mod c01;
+mod c04;
 mod c09;
+mod c11;
+mod c12;
 mod c13;
 mod life;
 
@@ -7,9 +10,12 @@ fn main() {
     vcore::runner::main(&[
         ("C01", c01::run_c01),
         ("C02", c01::run_c02),
+        ("C04", c04::run),
         ("C05", c01::run_c05),
         ("C06", c01::run_c06),
         ("C09", c09::run),
+        ("C11", c11::run_pure),
+        ("C12", c12::run),
         ("C13", c13::run),
     ])
 }
